@@ -17,6 +17,7 @@ import (
 	"os/signal"
 	"runtime"
 	"syscall"
+	"unsafe"
 
 	"github.com/mutagen-io/mutagen/pkg/encoding"
 	"github.com/mutagen-io/mutagen/pkg/filesystem"
@@ -99,9 +100,13 @@ func childMain(specPath string) int {
 	if spec.FsizeLimit >= 0 {
 		if spec.IgnoreXFSZ {
 			signal.Ignore(syscall.SIGXFSZ)
+		} else if err := resetToDefault(syscall.SIGXFSZ); err != nil {
+			// The Go runtime installs a handler that swallows SIGXFSZ; with
+			// the default disposition restored the kernel terminates the
+			// process inside the write system call that hits the limit.
+			fmt.Fprintln(os.Stderr, "c27 child: rt_sigaction:", err)
+			return 3
 		}
-		// Otherwise the Go runtime treats SIGXFSZ as fatal: the process dies
-		// inside the write without running any further user code.
 		if err := syscall.Getrlimit(syscall.RLIMIT_FSIZE, &saved); err != nil {
 			return 3
 		}
@@ -125,4 +130,19 @@ func childMain(specPath string) int {
 		return 3
 	}
 	return 0
+}
+
+// resetToDefault gives sig its default disposition (SIG_DFL) with a raw
+// rt_sigaction call; the os/signal package offers no way to do that.
+func resetToDefault(sig syscall.Signal) error {
+	var act struct {
+		handler  uintptr
+		flags    uint64
+		restorer uintptr
+		mask     uint64
+	}
+	if _, _, e := syscall.RawSyscall6(syscall.SYS_RT_SIGACTION, uintptr(sig), uintptr(unsafe.Pointer(&act)), 0, 8, 0, 0); e != 0 {
+		return e
+	}
+	return nil
 }
